@@ -61,7 +61,23 @@ pub fn make_entry(rs: &[RelExp], origin: &str) -> Result<Entry, String> {
     }
 }
 
+/// a relation with no optional blank ("compact") or with blanks wherever both readers take them ("generous")
+fn styled_rel(r: &RelExp, generous: bool) -> String {
+    let (pre, inn) = if generous { (" ", " ") } else { ("", "") };
+    let mut s = r.name.clone();
+    if let Some(a) = &r.aq { s.push(':'); s.push_str(a); }
+    if let Some((op, v)) = &r.version { s.push_str(&format!("{}({}{} {})", pre, inn, op, v)); }
+    if let Some(a) = &r.archs { s.push_str(&format!("{}[{}{}{}]", pre, inn, a.join(" "), inn)); }
+    for g in &r.profs {
+        s.push_str(&format!("{}<{}{}{}>", pre, inn, g.iter().map(|(n, p)| format!("{}{}", if *n { "!" } else { "" }, p)).collect::<Vec<_>>().join(" "), inn));
+    }
+    s
+}
+
 pub fn base_text(lay: &str, f0: &Value) -> String {
+    if lay == "inner_compact" || lay == "inner_generous" {
+        return model_structure(f0).iter().map(|e| e.iter().map(|r| styled_rel(r, lay == "inner_generous")).collect::<Vec<_>>().join(" | ")).collect::<Vec<_>>().join(", ");
+    }
     let es: Vec<String> = model_structure(f0).iter().map(|e| e.iter().map(super::rel::canon_rel).collect::<Vec<_>>().join(" | ")).collect();
     match lay {
         "empty" => String::new(),
